@@ -142,6 +142,41 @@ Theorem shm_read_back_identical_partial :
         /\ exists ri, reader_input (shape s) (enc_schema s ++ EOS) stored = Some ri /\ dec ri = Some b.
 Proof. exact shm_roundtrip_plain. Qed.
 
+(* ---- histories on ONE segment ------------------------------------------------------ *)
+(* The segment memoises the fast path's schema message (schemaCache).  Provided a cache key
+   identifies the schema message (the code keys by *arrow.Schema identity), what write k
+   stores is what it would store on a fresh segment, whatever was written before: for
+   histories of any length, any mix of layouts and any reuse of keys. *)
+Theorem stored_bytes_depend_only_on_own_write : forall ws,
+  key_sound ws -> run_writes [] ws = map fresh_store ws.
+Proof. exact run_writes_fresh. Qed.
+
+(* PARTIAL (same two arrow-go premises): every write of every history reads back as the
+   batch that this write passed in, in schema and values. *)
+Theorem history_read_back_identical_partial :
+  forall (batch schema : Type) (schema_of : batch -> schema) (shape : schema -> list ty)
+         (enc_schema : schema -> bytes) (enc_body : batch -> bytes) (dec : bytes -> option batch)
+         (key : batch -> N) (region : batch -> Z * Z) (md_of : batch -> meta),
+    (forall b, dec (enc_schema (schema_of b) ++ enc_body b ++ EOS) = Some b) ->
+    (forall s tail, skip_msg (enc_schema s ++ tail) = Some (zlen (enc_schema s))) ->
+    forall bs,
+      (forall b1 b2, In b1 bs -> In b2 bs -> key b1 = key b2 ->
+                     enc_schema (schema_of b1) = enc_schema (schema_of b2)) ->
+      let wr_of := fun b => {| w_key := key b; w_schema := shape (schema_of b); w_sm := enc_schema (schema_of b);
+                               w_body := enc_body b; w_md := md_of b; w_alloc := Some (region b) |} in
+      Forall2 (fun b res => exists st, res = WBytes st /\
+                 exists ri, reader_input (shape (schema_of b)) (enc_schema (schema_of b) ++ EOS) st = Some ri
+                            /\ dec ri = Some b)
+              bs (run_writes [] (map wr_of bs)).
+Proof. exact history_roundtrip_plain. Qed.
+
+(* A cache key that does not identify the schema (e.g. a fingerprint that leaves out field
+   metadata or a list child's name) breaks it: the second write is stored under the first
+   write's schema message. *)
+Theorem lossy_cache_key_refuted :
+  exists ws, run_writes [] ws <> map fresh_store ws.
+Proof. exists lossy_pair. exact (proj1 (proj2 lossy_key_breaks)). Qed.
+
 (* ---- the decidable form evaluated on the implementation's observables ---------- *)
 Theorem spec_holds_on_model : forall i, spec_ok i (model i) = true.
 Proof. exact model_meets_spec. Qed.
